@@ -95,7 +95,7 @@ func init() {
 		Sel: []Sel{
 			{Pattern: "parse.Number", Levels: "SF"}, {Pattern: "parse.Dimension", Levels: "SF"},
 			{Pattern: "parse.Mediatype", Levels: "S"}, {Pattern: "parse.DataURI", Levels: "SF"}, {Pattern: "parse.QuoteEntity", Levels: "S"},
-			{Pattern: "parse.EncodeURL", Levels: "SF"}, {Pattern: "parse.DecodeURL", Levels: "S"}, {Pattern: "parse.AppendEscape", Levels: "S"},
+			{Pattern: "parse.EncodeURL", Levels: "SF"}, {Pattern: "parse.DecodeURL", Levels: "SF"}, {Pattern: "parse.decodeURL", Levels: "SF"}, {Pattern: "parse.AppendEscape", Levels: "S"},
 			{Pattern: "parse.EqualFold", Levels: "SF"}, {Pattern: "parse.ToLower", Levels: "SF"}, {Pattern: "parse.Copy", Levels: "SF"},
 			{Pattern: "parse.TrimWhitespace", Levels: "SF"}, {Pattern: "parse.IsAllWhitespace", Levels: "SF"},
 			{Pattern: "parse.IsWhitespace", Levels: "SF"}, {Pattern: "parse.IsNewline", Levels: "SF"},
